@@ -15,7 +15,10 @@ for key, info in SEEDS.items():
         os.makedirs(os.path.join(dst, 'demo'), exist_ok=True)
         shutil.copy(os.path.join(src, 'patch.diff'), os.path.join(dst, 'patch.diff'))
         for f in glob.glob(os.path.join(src, 'demo', '*')):
-            shutil.copy(f, os.path.join(dst, 'demo'))
+            if os.path.isdir(f):
+                shutil.copytree(f, os.path.join(dst, 'demo', os.path.basename(f)), dirs_exist_ok=True)
+            else:
+                shutil.copy(f, os.path.join(dst, 'demo'))
         if os.path.exists(os.path.join(src, 'notes.md')):
             shutil.copy(os.path.join(src, 'notes.md'), os.path.join(dst, 'author_notes.md'))
     elif not os.path.isdir(dst):
@@ -35,7 +38,7 @@ for key, info in SEEDS.items():
             caught[cid] = {'exit': int(rc.group(1)) if rc else None, 'signatures': sigs[:4]}
     meta = {
         'property': pid, 'change': x,
-        'origin': 'written by an independent sub-agent that was given only the text of the property and its own scratch worktree of the repository (nothing from /verif)',
+        'origin': 'written by an independent sub-agent that was given only the text of the property and its own scratch worktree of the repository (nothing from /verif)' + (' - second wave: additionally told which functions the first-wave changes for this property had touched, so as to pick other mechanisms' if x in 'CD' else ''),
         'breaks': info['breaks'], 'needs_to_manifest': info['needs'],
         'demonstration': info['demo'],
         'confirmed_by_coordinator': verified,
